@@ -9,6 +9,8 @@ CONSTANTS
   MaxAdds = 10
   MaxEnds = 3
   AtomicAdd = TRUE
+  SplitGet = FALSE
+  RecheckOnStore = TRUE
   StaleTimers = FALSE
 INVARIANTS PendingAgree
 CHECK_DEADLOCK FALSE
